@@ -226,6 +226,16 @@ def r11_3(ctx: Ctx) -> None:
         substitutes = any(isinstance(s, ast.Assign) and txt(s.targets[0]).startswith(tuple(f"{name}." for name in stored))
                           and "options." in txt(s.value) for s in body)
         ok = (raises or returns_none or warns) and not substitutes
+        if ok and (raises or returns_none):
+            # a refusing test has to be two-sided: stored != current (a subset / ordering test lets one direction through)
+            resolved = inline_reaching(cfg, node, node.test, keep=stored)
+            core = resolved.operand if isinstance(resolved, ast.UnaryOp) and isinstance(resolved.op, ast.Not) else resolved
+            two_sided = isinstance(core, ast.Compare) and len(core.ops) == 1 and isinstance(core.ops[0], (ast.Eq, ast.NotEq))
+            if not two_sided:
+                ctx.ob("R11.3", HD, node, "regenerate_previous_results", f"setting test {test[:70]} [two-sided]", False,
+                       "results saved under a different setting are refused whichever way the setting differs: the test is an "
+                       "(in)equality of the stored and the current value", detail=f"`{txt(core)[:90]}` is not an equality test",
+                       form=txt(core)[:120])
         ctx.ob("R11.3", HD, node, "regenerate_previous_results", f"setting test {test[:70]}", ok,
                "a stored setting that differs from the current option makes reuse fail, be discarded, or keeps the stored "
                "value with a warning - never silently substitutes the new option into old results",
